@@ -542,7 +542,7 @@ var c07ConcDqLen = 0 // default-qualities lengths grow from case to case, so tha
 func c07GenConc(rng *rand.Rand, tier string, emit func(string)) {
 	ncase, g, r, long := 4, 8, 150, 6000
 	if tier == "thorough" {
-		ncase, g, r, long = 10, 16, 200, 30000
+		ncase, g, r, long = 8, 16, 60, 20000
 	}
 	// all the goroutines ask for default qualities longer than any served before, together (no PRNG draw).  On the code
 	// before notes/patches/C07-default-qualities-race.diff this line alone fails in 8 runs out of 10 (zeros among the
@@ -561,6 +561,7 @@ func c07GenConc(rng *rand.Rand, tier string, emit func(string)) {
 		rng.Shuffle(len(kinds), func(i, j int) { kinds[i], kinds[j] = kinds[j], kinds[i] })
 		seenKind := map[string]bool{}
 		fmt.Fprintf(&b, "conc %d %d %d", g, r, n+1)
+		raceHead := fmt.Sprintf("conc race 6 3 %d ", n+1)
 		for i := 0; i < n; i++ {
 			kind := kinds[i%len(kinds)]
 			l := 0
@@ -618,7 +619,8 @@ func c07GenConc(rng *rand.Rand, tier string, emit func(string)) {
 		emit(b.String())
 		stat("gen:conc")
 		if tier == "thorough" && c < 3 && c07FirstSeed() {
-			emit("conc race " + strings.TrimPrefix(b.String(), "conc "))
+			// the detector needs the accesses, not the luck: few goroutines, few rounds (the instrumented build is slow)
+			emit(raceHead + strings.TrimPrefix(b.String(), fmt.Sprintf("conc %d %d %d ", g, r, n+1)))
 			stat("gen:conc-race")
 		}
 	}
